@@ -29,9 +29,10 @@ def main(pid):
 
     def pairs():
         nmax = 4 if quick else 5
-        if pid == 'C04' and quick:
-            nmax = 3
-            for n in (4, 5):
+        if pid == 'C04':
+            # every pair is evaluated under several ratios (sub-sampler and estimator): keep the exhaustive part smaller
+            nmax = 3 if quick else 4
+            for n in ((4, 5) if quick else (5, 6)):
                 for t in itertools.product(range(2), repeat=2 * n):
                     yield np.array(t[:n], dtype=np.int32), np.array(t[n:], dtype=np.int32)
         for n in range(1, nmax + 1):
